@@ -56,7 +56,8 @@ func genCase(rt *rapid.T) *caseT {
 		}
 	}
 	opts := sg.GenOptions{MinLeaves: 1, MaxLeaves: 7, Migration: true, Names: names, Exclude: ex,
-		NoAddedUnique: harness.OpenClass("C20", "unique-on-added-column"), NoNonCanonical: harness.OpenClass("C20", "default-noncanonical-number"), OnExcludeTag: func(cl string) { c.excl = append(c.excl, cl) },
+		NoAddedUnique: harness.OpenClass("C20", "unique-on-added-column"), NoNonCanonical: harness.OpenClass("C20", "default-noncanonical-number"),
+		NoUniqueNameClash: harness.OpenClass("C20", "unique-name-collision"), OnExcludeTag: func(cl string) { c.excl = append(c.excl, cl) },
 		OnExclude: func(*sg.Kind) { c.excl = append(c.excl, "C03:unixtime-uint") }}
 	c.v1, c.pk = sg.GenModel(rt, opts)
 	c.m1 = sg.Build(c.v1)
@@ -497,4 +498,16 @@ func TestC20WitnessDefaultNonCanonicalNumber(t *testing.T) {
 		base(&sg.FieldSpec{Name: "Rating", Kind: sg.KFloat64, Default: &sg.Default{Tag: "-1.50", Canon: "f:-1.5"}}, &sg.FieldSpec{Name: "Age", Kind: sg.KInt}), []string{"field Age"})
 	witness(t, base(&sg.FieldSpec{Name: "Level", Kind: sg.KInt, Default: &sg.Default{Tag: "0x10", Canon: "i:16"}}),
 		base(&sg.FieldSpec{Name: "Level", Kind: sg.KInt, Default: &sg.Default{Tag: "0x10", Canon: "i:16"}}, &sg.FieldSpec{Name: "Age", Kind: sg.KInt}), []string{"field Age"})
+}
+
+// two `unique` fields whose columns differ but fold to the same name in the naming strategy
+// (item_id and ItemID): both constraints are called uni_<table>_item_id and only one is created.
+func TestC20WitnessUniqueNameCollision(t *testing.T) {
+	v1 := func() *sg.StructSpec {
+		return base(&sg.FieldSpec{Name: "ItemID", Kind: sg.KString, Unique: true, DistinctValue: true},
+			&sg.FieldSpec{Name: "Score", Kind: sg.KUint64, Column: "ItemID", Unique: true, DistinctValue: true})
+	}
+	v2 := v1()
+	v2.Fields = append(v2.Fields, &sg.FieldSpec{Name: "Age", Kind: sg.KInt})
+	witness(t, v1(), v2, []string{"field Age"})
 }
